@@ -813,7 +813,7 @@ theorem stepC_of_step (vars : List Linked) (hN : NoSharing vars) (caches : List 
     | some v =>
       simp only [hv, Option.map_some, Option.some.injEq] at h
       obtain ⟨c', h1, h2⟩ := valueC_of_value vars hN caches hC st (.var i) v hv
-      exact ⟨c', by simp only [pyStepC, h1, bind, Except.bind, pure, Except.pure, h], h2⟩
+      exact ⟨c', by simp only [pyStepC, h1, h], h2⟩
   | set d src =>
     simp only [pyStep] at h
     cases hv : pyValue vars st src with
@@ -829,7 +829,7 @@ theorem stepC_of_step (vars : List Linked) (hN : NoSharing vars) (caches : List 
         | some s =>
           simp only [hl, hs, Option.bind_eq_bind, Option.bind_some] at h
           obtain ⟨c2, h3, h4⟩ := setter_ok vars c1 hN h2 d l s hl hs
-          exact ⟨c2, by simp only [pyStepC, h1, h3, bind, Except.bind, h, pure, Except.pure], h4⟩
+          exact ⟨c2, by simp only [pyStepC, h1, h3, h], h4⟩
 
 theorem runC_of_run (vars : List Linked) (hN : NoSharing vars) (ops : List Op) :
     ∀ (caches : List PvCache) (st st' : PyState), Consistent vars caches → pyRun vars st ops = some st' →
